@@ -404,6 +404,10 @@ class NumEval:
             if a.kind == 'tuple':
                 return self.table(a)
             return a
+        if c in ('torch.zeros', 'torch.zeros_like'):
+            return const(0)
+        if c in ('torch.ones', 'torch.ones_like'):
+            return const(1)
         if c in ('torch.floor_divide',):
             return self.binop('//', t[2][0], t[2][1], d)
         if c in ('torch.mul',):
